@@ -17,7 +17,8 @@ use crate::{
             RenderTable,
         },
         summary::{make_aggregate_summary_txs, CollectedSummaryData},
-        CumulativeCapitalGains, PortfolioSecurityStatus, Security, Tx, TxDelta,
+        Affiliate, CumulativeCapitalGains, PortfolioSecurityStatus, Security, Tx,
+        TxDelta,
     },
     util::rw::{DescribedReader, WriteHandle},
     write_errln,
@@ -95,8 +96,19 @@ pub async fn run_acb_app_to_delta_models(
         // An error here only concerns this security. Report it against the
         // security (like any other bookkeeping error), rather than aborting all
         // of the other securities.
+        // The default affiliate may hold shares through an initial status only
+        // (without any Tx), in which case global splits still apply to them.
+        let initial_holders = match all_init_status.get(&sec) {
+            Some(init_status) if !init_status.share_balance.is_zero() => {
+                vec![Affiliate::default()]
+            }
+            _ => Vec::new(),
+        };
         if let Err(e) =
-            crate::portfolio::splits::replace_global_security_splits(&mut sec_txs)
+            crate::portfolio::splits::replace_global_security_splits_with_holders(
+                &mut sec_txs,
+                &initial_holders,
+            )
         {
             delta_results.insert(
                 sec,
